@@ -123,9 +123,9 @@ def get_root_include_path(filename):
     if filename is None:
         return None
     root_path = None
-    full_file_path = os.path.abspath(
-        os.path.normpath(
-            os.path.expanduser(filename)))
+    # (The cart file is opened under the name it was given, so that name -
+    # without "~" expansion - says where the cart is.)
+    full_file_path = os.path.abspath(os.path.normpath(filename))
     for candidate in PICO8_CART_PATHS:
         full_candidate_path = os.path.abspath(
             os.path.normpath(
